@@ -530,8 +530,9 @@ impl Ty {
     pub fn has_sum_variant(&self, possible_variant: &Ty) -> bool {
         match self.absolute_ty() {
             Ty::Optional { sub_ty } => {
-                // todo: should this be `is_nil`? what happens to distinct types?
-                *possible_variant == **sub_ty || possible_variant.is_nil()
+                // only `nil` itself is the second variant (a distinct wrapper of `nil` is not:
+                // `get_tagged_union_discrim` and the switch code compare with `Ty::Nil`)
+                *possible_variant == **sub_ty || *possible_variant == Ty::Nil
             }
             Ty::ErrorUnion {
                 error_ty,
